@@ -24,7 +24,7 @@ OPTION_POOL = ["-O0", "-O1", "-O2", "-O3", "-feof-support", "-fyield-support", "
                "-fstrings-as-u8", "-fhook-per-state", "-fstrict-done-token-generation", "-fzero-len-input-support",
                "-funsafe-string-indexing", "-fuse-packed-enums", "-finclude-user-ptr", "-fcollapse-transition-ranges",
                "-fcodepoints-in-errors", ("--collapsed-range-length", "0"), ("--collapsed-range-length", "-3"),
-               ("--collapsed-range-length", "1")]
+               ("--collapsed-range-length", "1"), "-O\u0663", "-O\u00b2"]
 
 
 def pick_options(rng, lo, hi):
@@ -48,7 +48,9 @@ def edge_programs(rng, n):
                  "out int i = [1 + 2];", "out int i = j;", "hook h;", "hook h;", "finishcode F;", "yieldcode Y;", "finishcode F, G;",
                  "macro m() { \"a\"; }", "macro m(out o) { o = 1; }", "macro m(expr e) { i = e; }", "macro r() { r(); }",
                  "macro m() {}", "macro m(hook k) { k(); }", "macro m(out o, expr v) { o = v; }", "macro m(match p) { p; (p \"!\"); }",
-                 "macro r() { optional { loop { case { \"a\" -> { try { r(); } catch { } } \"b\" -> { break; } } } } }"]
+                 "macro r() { optional { loop { case { \"a\" -> { try { r(); } catch { } } \"b\" -> { break; } } } } }",
+                 "macro r() { loop { case { \"a\" -> { optional { r(); } } } } }", "out str[-5] s;", "out unterminated str[0] t;",
+                 'out str[6] s = "\u65e5\u672c";'.encode().decode("unicode_escape")]
     stmts = ['"a";', '"\\q";', '"\\x4";', '"\\u1234";', '"\\xzz";', '"";', '""i;', '"6"b;', '"zz"b;', '"61 62"b;', "/a+/;", "/a{1000}/;", "/a{2,1}/;", "/[z-a]/;", "/()/;",
              "/a**/;", "/(a|)/;", "/[^\\x00-\\xff]/;", "b/61/;", "b/6/;", "b/[00-ff]+ff/;", "end;", "wait end;", "wait \"\";",
              "i = 5;", "i = [i + 1];", "i = true;", "i = A;", "i = \"s\";", "i += 5;", "i += \"a\";", "b = 5;", "b = [1 < 2];", "b = true;", "e = A;", "e = Z;", "e = 1;",
@@ -65,7 +67,10 @@ def edge_programs(rng, n):
              "(\"a\" \"b\");", "(\"a\" (\"b\" /c/));", "();", "[1];", "[i];",
              'm("ab");', "m(/x+/);", "m([i + 1]);", "m(h);", "m(i, [i + 1]);", 'm(i, "k");', "m(/a/);", "e = C;",
              'if 100 / 0 > 1 { "a"; }', 'if (1 << -1) == 0 { "a"; }', 'if 8 % (4 - 4) == 0 && 2 > 1 { "a"; }', "if 6 / 3 == 2 { i = 1; }",
-             "optional { end; } end;", "case { end -> { } /a*/ -> { } }", '"a";\x0c', '\x0c"b" "c";', "i = [1 / (2 - 2)];", "i = [5 % 0];"]
+             "optional { end; } end;", "case { end -> { } /a*/ -> { } }",
+             's = "0a1"b;', 's = "0a 1b"b;', 's = "61"b;', 'greedy case { "a" -> { } ("a" end) -> { } "ax" -> { } } if i == 0 { case { end -> { } "x" -> { } } }',
+             's = "\u65e5\u672c";'.encode().decode("unicode_escape"), '"\u65e5";'.encode().decode("unicode_escape"), "b = [1 / 0];", "b = [1 << (0 - 1)];",
+             'case { "a" -> { i = 1; } else -> { i = 2; } else -> { i = 3; } }', '"a";\x0c', '\x0c"b" "c";', "i = [1 / (2 - 2)];", "i = [5 % 0];"]
     out = []
     for k in range(n):
         nd = rng.randint(0, 5)
